@@ -199,6 +199,9 @@ def estimate_mixture_weight(
             eps=1e-10,
             eps_style='where',
         )
+        # When the class axis is among the tied axes, the normalization above
+        # yields one instead of 1/K (compare the branch without saliency).
+        weight = weight * (weight.shape[-2] / affiliation.shape[-2])
 
     return weight
 
